@@ -231,6 +231,55 @@ def d1_pairing(ctx):
                     ok = True
         ctx.check(rule, 'obs.py:_reduce_deltas#fast-path[%s]' % g[:40], ok, 'unchanged fluctuations are returned only for identical lists', 'fast path guarded by `%s`' % g, obs.loc(s))
 
+    # every other return of _reduce_deltas: either the by-number selection, or a strided slice deltas[a::b][:n] on a path where both
+    # lists are ranges - then position a + j*b of the old list must be configuration idx_new.start + j*idx_new.step:
+    #     a * idx_old.step == idx_new.start - idx_old.start      and      b * idx_old.step == idx_new.step
+    import sympy as sp_
+    so, sn, o0, n0 = sp_.symbols('step_old step_new start_old start_new', integer=True, positive=True)
+    for s in rets:
+        if s in fast:
+            continue
+        v = s.value
+        txt = unparse(v)
+        key = 'obs.py:_reduce_deltas#return[%s]' % txt[:50]
+        if ind and any(x is ind[0] for x in ast.walk(v)) or (isinstance(v, ast.Subscript) and unparse(v.slice) == 'indices'):
+            ctx.holds(rule, key, 'selection by the positions found by configuration number', obs.loc(s))
+            continue
+        # find a strided slice of the fluctuations
+        sl = [x for x in ast.walk(v) if isinstance(x, ast.Subscript) and isinstance(x.slice, ast.Slice) and x.slice.step is not None and any(isinstance(y, ast.Name) and y.id == p[0] for y in ast.walk(x.value))]
+        gtxt = ' && '.join(unparse(t) for t, pol in guards_of(obs, s, stop=f) if pol)
+        if len(sl) != 1 or 'is range' not in gtxt:
+            ctx.unrec(rule, key, 'additional return path of _reduce_deltas not understood', obs.loc(s))
+            continue
+        single = {}
+        for d_ in statements(f):
+            if isinstance(d_, ast.Assign) and len(d_.targets) == 1 and isinstance(d_.targets[0], ast.Name):
+                single.setdefault(d_.targets[0].id, []).append(d_.value)
+
+        def tr(e):
+            if isinstance(e, ast.Constant) and isinstance(e.value, int):
+                return sp_.Integer(e.value)
+            if isinstance(e, ast.Name) and e.id in single and len(single[e.id]) == 1:
+                return tr(single[e.id][0])
+            if isinstance(e, ast.Attribute) and isinstance(e.value, ast.Name) and e.value.id in (p[1], p[2]) and e.attr in ('start', 'step'):
+                return {(p[1], 'start'): o0, (p[1], 'step'): so, (p[2], 'start'): n0, (p[2], 'step'): sn}[(e.value.id, e.attr)]
+            if isinstance(e, ast.Subscript) and isinstance(e.value, ast.Name) and e.value.id in (p[1], p[2]) and const(e.slice) == 0:
+                return o0 if e.value.id == p[1] else n0
+            if isinstance(e, ast.BinOp) and isinstance(e.op, (ast.Add, ast.Sub, ast.Mult, ast.FloorDiv, ast.Div)):
+                a_, b_ = tr(e.left), tr(e.right)
+                return {ast.Add: lambda: a_ + b_, ast.Sub: lambda: a_ - b_, ast.Mult: lambda: a_ * b_, ast.FloorDiv: lambda: a_ / b_, ast.Div: lambda: a_ / b_}[type(e.op)]()
+            raise Unrecognised('cannot translate %s' % unparse(e))
+        try:
+            a_ = tr(sl[0].slice.lower) if sl[0].slice.lower is not None else sp_.Integer(0)
+            b_ = tr(sl[0].slice.step)
+        except Unrecognised as e_:
+            ctx.unrec(rule, key, str(e_), obs.loc(s))
+            continue
+        ok = sp_.simplify(a_ * so - (n0 - o0)) == 0 and sp_.simplify(b_ * so - sn) == 0
+        ctx.check(rule, key, ok, 'strided slice starts at (idx_new.start - idx_old.start)/idx_old.step with stride idx_new.step/idx_old.step',
+                  'the strided shortcut takes positions %s + j*(%s) of the old list; configuration idx_new.start + j*idx_new.step sits at position (start_new - start_old)/step_old + j*step_new/step_old: '
+                  'a difference of configuration numbers is used as an array position' % (a_, b_), obs.loc(s))
+
     # qtop_projection: samples, names and idl of one object in one order
     oq = ctx.repo.mod('input.openQCD')
     f = oq.func('qtop_projection')
@@ -405,6 +454,8 @@ def run(ctx):
 
 
 SELFTEST = [
+    ('reduce-strided-shortcut-no-step-division', 'pyerrors/obs.py', "    if _check_lists_equal([idx_old, idx_new]):\n        return deltas\n    indices = np.intersect1d", "    if type(idx_old) is range and type(idx_new) is range and idx_new.step % idx_old.step == 0 and idx_new[0] in idx_old and idx_new[-1] in idx_old:\n        first = idx_new.start - idx_old.start\n        return np.array(deltas)[first::idx_new.step // idx_old.step][:len(idx_new)]\n    if _check_lists_equal([idx_old, idx_new]):\n        return deltas\n    indices = np.intersect1d", 'C05-D1'),
+    ('benign-reduce-strided-shortcut', 'pyerrors/obs.py', "    if _check_lists_equal([idx_old, idx_new]):\n        return deltas\n    indices = np.intersect1d", "    if type(idx_old) is range and type(idx_new) is range and idx_new.step % idx_old.step == 0 and idx_new[0] in idx_old and idx_new[-1] in idx_old:\n        first = (idx_new.start - idx_old.start) // idx_old.step\n        return np.array(deltas)[first::idx_new.step // idx_old.step][:len(idx_new)]\n    if _check_lists_equal([idx_old, idx_new]):\n        return deltas\n    indices = np.intersect1d", 'BENIGN'),
     ('shape-check-dedented-out-of-loop', 'pyerrors/obs.py', "        if obs_a.shape[name] != obs_b.shape[name]:\n            raise ValueError('Shapes of ensemble', name, 'do not fit')\n        if obs_a.idl[name] != obs_b.idl[name]:\n            raise ValueError('idl of ensemble', name, 'do not fit')\n", "        if obs_a.idl[name] != obs_b.idl[name]:\n            raise ValueError('idl of ensemble', name, 'do not fit')\n    if obs_a.shape[name] != obs_b.shape[name]:\n        raise ValueError('Shapes of ensemble', name, 'do not fit')\n", 'C05-D5'),
     ('reweight-positional-slice', 'pyerrors/obs.py', "w_deltas[name] = _reduce_deltas(weight.deltas[name], weight.idl[name], obs[i].idl[name])", "w_deltas[name] = weight.deltas[name][:len(obs[i].deltas[name])]", 'C05-D1'),
     ('reweight-wrong-list', 'pyerrors/obs.py', "w_deltas[name] = _reduce_deltas(weight.deltas[name], weight.idl[name], obs[i].idl[name])", "w_deltas[name] = _reduce_deltas(weight.deltas[name], obs[i].idl[name], obs[i].idl[name])", 'C05-D1'),
